@@ -261,7 +261,11 @@ class BoboDistributedTCP(BoboDistributed,
                 if self._closed:
                     self._running = False
                     break
-                self._update()
+
+            # Dispatch without holding the local lock: subscribers take the
+            # Decider's lock, and the Decider notifies this instance (which
+            # takes the local lock) while holding its own lock.
+            self._update()
 
     def subscribe(self, subscriber: BoboDistributedSubscriber) -> None:
         """
